@@ -415,3 +415,51 @@ def check_server_tables(snap: dict, all_clients_gone: bool) -> list[dict]:
             if srv['tasks'] or srv['mailboxes'] or srv['mailbox_to_task']:
                 w.append({'kind': 'leak:server_tables_after_disconnect', 'node': name, 'tasks': srv['tasks'], 'mailboxes': srv['mailboxes'], 'mailbox_to_task': srv['mailbox_to_task']})
     return w
+
+
+def check_errors_forwarded(sc: dict, obs: dict) -> list[dict]:
+    """E1 (detached server): once the server has received a task ERROR of one
+    of a client's compilations, the next request/reply interaction that client
+    starts must raise (the forwarded error precedes any later reply on the
+    same connection), whether or not the result was already fetched. A client
+    call that starts after that moment and still returns a value means the
+    error was swallowed."""
+    w: list[dict] = []
+    if sc['topology']['kind'] != 'detached':
+        return w
+    owner: dict[int, str] = {}
+    n_submit = 0
+    log = obs.get('msglog', [])
+    for m in log:
+        if m['ev'] == 'recv' and m['dst'] == 'server' and m['src'].startswith('c') and m['msg'][0] == 'SUBMIT':
+            owner[n_submit] = m['src']
+            n_submit += 1
+    first_err: dict[str, tuple[int, Any]] = {}
+    for m in log:
+        if m['ev'] == 'recv' and m['dst'] == 'server' and m['msg'][0] == 'ERROR':
+            brief = m['msg'][1] or {}
+            if brief.get('tid') in owner:
+                cl = owner[brief['tid']]
+                if cl not in first_err:
+                    first_err[cl] = (m['step'], brief)
+    checked = 0
+    for cl, (t_err, brief) in first_err.items():
+        raised_before = False
+        for rec in obs.get('clients', []):
+            if rec['client'] != cl or rec.get('call_step') is None:
+                continue
+            kind = rec['op'].split(':')[0]
+            if kind in ('close', 'connect'):
+                continue
+            if rec['outcome'] == 'raise':
+                raised_before = True
+                break
+            if rec['call_step'] > t_err and rec['outcome'] == 'value' and not raised_before:
+                w.append({'kind': 'error:swallowed_by_server', 'client': cl, 'tid': brief['tid'], 'op': rec['op'],
+                          'error_received_by_server_at_step': t_err, 'call_started_at_step': rec['call_step'], 'error_tail': brief.get('text', '')[-120:]})
+                break
+            if rec['call_step'] > t_err:
+                checked += 1
+        checked += 1
+    obs['_errors_forward_checked'] = checked
+    return w
